@@ -131,6 +131,50 @@ def hkcCustomV2 (s : KV2) (cur : List KeyCode) (ce : CustomEv) : Except Crash (K
       | .ok s => .ok (s, cur)
   | .noEvent => .ok (s, cur)
 
+/-! [seq] the sequence hooks of Model/KanataSeq.lean over the layout with chords v2: the virtual-key
+taps of `do_successful_sequence_termination` go through `layout.event`, i.e. into the chords-v2 queue
+when chords v2 is configured; everything else is the original (`retainStates`, `engOf`, `emitSeq`) -/
+
+/-- [seq] `layout.event(Press(1, j)); layout.event(Release(1, j))` for every tap -/
+def tapVkeysV2 : List Nat → KV2 → Except L.Crash KV2
+  | [], s => .ok s
+  | j :: js, s =>
+    match s.event (.press (1, j)) with
+    | .error e => .error e
+    | .ok s => match s.event (.release (1, j)) with
+      | .error e => .error e
+      | .ok s => tapVkeysV2 js s
+
+/-- [seq] `applyEng` and `emitSeq` on `KV2` -/
+def applyEngV2 (s : KV2) (e : Seq.Eng) : Except Crash KV2 :=
+  let l : Layout := { s.k.layout with states := retainStates e.states s.k.layout.states }
+  let sk : SeqK := { s.k.seq with st := e.st }
+  let k : KState := { s.k with seq := sk, layout := l }
+  match tapVkeysV2 e.taps { s with k := k } with
+  | .error c => .error (.layout c)
+  | .ok s' => .ok { s' with k := emitSeq s'.k e.out }
+
+/-- [seq] `seqReleasedHook` -/
+def seqReleasedHookV2 (s : KV2) (cur : List KeyCode) : Except Crash KV2 :=
+  if cur.isEmpty && !s.k.prevKeys.isEmpty then
+    if !s.k.seq.st.active then .ok s
+    else applyEngV2 s (Seq.allReleasedHook s.k.seq.trie (engOf s.k.seq s.k.layout))
+  else .ok s
+
+/-- [seq] `pressLoop` -/
+def pressLoopV2 (cur : List KeyCode) : List KeyCode → KV2 → Except Crash KV2
+  | [], s => .ok s
+  | x :: xs, s =>
+    if s.k.prevKeys.contains x then pressLoopV2 cur xs s
+    else
+      let k := { s.k with prevKeys := s.k.prevKeys ++ [x], lastPressedKey := x }
+      let k := { k with seq := k.seq.alwaysOnStep }
+      if k.seq.st.active then
+        match applyEngV2 { s with k } (Seq.doSeqPress k.seq.trie k.seq.modcancel (engOf k.seq k.layout) x (Seq.modMaskOf cur)) with
+        | .error e => .error e
+        | .ok s => pressLoopV2 cur xs s
+      else pressLoopV2 cur xs { s with k := pressKey k x }
+
 /-- `handle_keystate_changes` after `layout.tick()` returned `ce` (the text of `handleKeystateChanges`
 from `applyUnmodEvent` on) -/
 def hkcRestV2 (s : KV2) (ce : CustomEv) : Except Crash KV2 :=
@@ -142,8 +186,14 @@ def hkcRestV2 (s : KV2) (ce : CustomEv) : Except Crash KV2 :=
     | .ok (cur, ost) =>
       let k := eraseOverridden { k with overrideStates := ost } ost.toRemove
       let (cur, k) := applyCapsWord k cur
-      let k := pressNew (releaseOld k cur reverse) cur
-      match hkcCustomV2 { s with k } cur ce with
+      -- [seq] was: `let k := pressNew (releaseOld k cur reverse) cur`
+      match seqReleasedHookV2 { s with k := releaseOld k cur reverse } cur with
+      | .error c => .error c
+      | .ok s =>
+      match pressLoopV2 cur cur s with
+      | .error c => .error c
+      | .ok s =>
+      match hkcCustomV2 s cur ce with
       | .error c => .error c
       | .ok (s, cur) => .ok { s with k := { s.k with curKeys := cur } }
 
@@ -182,7 +232,10 @@ touch the layout -/
 def tickMid (k : KState) : Except Crash KState :=
   match handleScrolling k with
   | .error c => .error c
-  | .ok k => handleMoveMouse k
+  | .ok k =>
+  match handleMoveMouse k with
+  | .error c => .error c
+  | .ok k => tickSequenceState k     -- [seq]
 
 /-- the bookkeeping of `tick_states` between `tick_idle_timeout` and `tick_held_vkeys` -/
 def tickBook (k : KState) : KState :=
